@@ -129,7 +129,7 @@ def run(ctx):
         # is there a success path avoiding every from_utf8 on the raw bytes?
         rets = [bb for bb in PB.return_blocks()]
         reach = PB.reachable(0, removed_blocks=set(utf8_calls) | err)
-        oks = [bb for bb, j, st in PB.stmts() if st['k'] == '=' and st['pl']['l'] == 0 and st['rv']['k'] == 'agg' and st['rv'].get('var') == 'Ok']
+        oks = [bb for bb, j, st in PB.stmts() if st['k'] == '=' and PB.is_ret_slot(st['pl']['l']) and st['rv']['k'] == 'agg' and st['rv'].get('var') == 'Ok']
         unguarded = [bb for bb in utf8_calls if not _ascii_guarded(PB, bb)]
         if unguarded:
             ctx.bad('C03.3-latin1', inst, '%s reads the raw bytes of a Latin-1 atom as UTF-8 without having established that they are ASCII: bytes >= 0x80 that happen to form a valid UTF-8 sequence '
@@ -146,7 +146,7 @@ def run(ctx):
         FB = ctx.body(DEC + fn)
         if FB is None:
             continue
-        oks = [(bb, st) for bb, j, st in FB.stmts() if st['k'] == '=' and st['pl']['l'] == 0 and st['rv']['k'] == 'agg' and st['rv'].get('var') == 'Ok']
+        oks = [(bb, st) for bb, j, st in FB.stmts() if st['k'] == '=' and FB.is_ret_slot(st['pl']['l']) and st['rv']['k'] == 'agg' and st['rv'].get('var') == 'Ok']
         ctx.anchor(len(oks) >= 1, DEC + fn + ':Ok return')
         k = 0
         for bb, st in oks:
@@ -174,7 +174,7 @@ def run(ctx):
             n_inner += 1
             inst = '%s:inner-remainder' % p_.rsplit('::', 1)[1]
             d = PC.derived_locals([tt['dst']['l']])
-            oks = [b3 for b3, j3, st3 in PC.stmts() if st3['k'] == '=' and st3['pl']['l'] == 0 and st3['rv']['k'] == 'agg' and st3['rv'].get('var') == 'Ok'
+            oks = [b3 for b3, j3, st3 in PC.stmts() if st3['k'] == '=' and PC.is_ret_slot(st3['pl']['l']) and st3['rv']['k'] == 'agg' and st3['rv'].get('var') == 'Ok'
                    and b3 in PC.reachable(bb)]
             tested = bool(oks) and all(_remainder_empty_at(ctx, PC, b3, only_call=bb) for b3 in oks)
             if tested:
@@ -245,7 +245,7 @@ def run(ctx):
         # the (remainder, term) pairs handed back: the payload of every `Ok(..)` assigned to the return slot
         res_pairs = []
         for bb, j, st in PCB_.stmts():
-            if st['k'] == '=' and st['pl']['l'] == 0 and not st['pl'].get('p') and st['rv']['k'] == 'agg' and st['rv'].get('var') == 'Ok' and st['rv'].get('ops'):
+            if st['k'] == '=' and PCB_.is_ret_slot(st['pl']['l']) and not st['pl'].get('p') and st['rv']['k'] == 'agg' and st['rv'].get('var') == 'Ok' and st['rv'].get('ops'):
                 o_ = PCB_.origin(st['rv']['ops'][0], at=(bb, j))
                 if o_[0] == 'agg' and o_[1].get('ak') == 'tuple' and len(o_[1]['ops']) == 2:
                     res_pairs.append((o_[2], {'k': '=', 'rv': o_[1], 'ln': st.get('ln')}))
